@@ -749,6 +749,30 @@ def run_case(c):
                     rec["oracle"].append("image-shape")
                 else:
                     arr = np.array([fl(v) for v in fd["vals"]], dtype=float).reshape(n0, n1, nv)
+                    # the lightness source, where the property determines it
+                    src = None
+                    ad = c.get("lightness_field")
+                    if ad is not None:
+                        cand = [[[(p_, q_) for p_ in near_cands(ad["n"][0], n0, i) for q_ in near_cands(ad["n"][1], n1, j)]
+                                 for j in range(n1)] for i in range(n0)]
+                        if all(len(cand[i][j]) == 1 for i in range(n0) for j in range(n1)):
+                            src = np.array([[fl(ad["vals"][cand[i][j][0][0] * ad["n"][1] + cand[i][j][0][1]])
+                                             for j in range(n1)] for i in range(n0)])
+                    elif nv == 1:
+                        src = np.abs(arr[..., 0])
+                    elif nv == 2:
+                        src = np.sqrt(arr[..., 0] ** 2 + arr[..., 1] ** 2)
+                    else:
+                        rest = [s_ for s_ in labels_ if s_ not in (rdim(0), rdim(1))]
+                        if len(rest) == 1:
+                            src = arr[..., labels_.index(rest[0])].copy()
+                    ln = None
+                    if src is not None:
+                        sh = src - src.min()
+                        if sh.max() != 0:
+                            sh = sh / sh.max()
+                        c0_, c1_ = (0.0, 1.0) if c["clim"] is None else (fl(c["clim"][0]), fl(c["clim"][1]))
+                        ln = sh * (c1_ - c0_) + c0_
                     for i in range(n0):
                         for j in range(n1):
                             px = rows[j][i]
@@ -768,6 +792,8 @@ def run_case(c):
                                     sx, sy = rdim(0), rdim(1)
                                     ang = math.atan2(arr[i, j, labels_.index(sy)], arr[i, j, labels_.index(sx)])
                                 h, l_, s_ = colorsys.rgb_to_hls(*px[:3])
+                                if ln is not None and abs(l_ - ln[i, j]) > 1e-6:
+                                    rec["oracle"].append("lightness-value")
                                 if 1e-6 < l_ < 1 - 1e-6:
                                     d = (h - ang / (2 * np.pi)) % 1.0
                                     if min(d, 1 - d) > 1e-6:
